@@ -1,6 +1,7 @@
 import EudoxiaModel.Proofs.Account
 import EudoxiaModel.Props.C10
 import EudoxiaModel.Proofs.Cids
+import EudoxiaModel.Proofs.FreshWorlds
 /-! # C09 — every accepted assignment becomes exactly one container with exactly one outcome -/
 namespace Eudoxia.C09
 open Eudoxia OpState
@@ -105,5 +106,18 @@ theorem container_numbers_never_reused {w w2 : World} {sus : List (Nat × Nat)} 
 theorem fresh_world_numbers (cfg : Cfg) (store : Store) (pipes : Array PipeInfo) (caps : List (Nat × Nat)) :
     World.CidsOK { cfg := cfg, store := store, pools := caps.map (fun c => Pool.fresh c.1 c.2), pipes := pipes } :=
   fresh_world_cidsOK cfg store pipes caps
+
+/-- **over whole runs of `priority` with multi-operator containers** (the mode that suspends and resumes): on every tick of every run from a fresh world the
+containers of all pools — running, being written out, suspended — carry pairwise different numbers below the executor's counter (a resumed job gets a
+container of its own, never the number of the one that was written out), and every container's record of what it has finished is straight (`World.FinS`:
+operators before its index COMPLETED) — the two invariants behind "one container per accepted assignment, one outcome per container" -/
+theorem numbers_and_records_stay_straight_on_every_tick_of_every_priority_run (cfg : Cfg) (store : Store) (pipes : Array PipeInfo) (caps : List (Nat × Nat))
+    (arrivals : List (List Nat)) (hm : cfg.multiOp = true) (ho : cfg.overcommit = false) (hq : 0 < cfg.q)
+    (wf : (freshWorld cfg store pipes caps).WFP) (hs : (freshWorld cfg store pipes caps).SegsOK) (hp : (freshWorld cfg store pipes caps).PidOK)
+    (ht : (freshWorld cfg store pipes caps).Topo) (hF : arrivals.flatten.Nodup)
+    (hfut : ∀ pid ∈ arrivals.flatten, (pipes.getD pid default).order ≠ [] ∧ ∀ o ∈ (pipes.getD pid default).order, store.stOf o = OpState.pending) :
+    ∃ w' st' res', Prio.loop (freshWorld cfg store pipes caps) {} [] arrivals = .ok (w', st', res') ∧ w'.CidsOK ∧ w'.FinS := by
+  obtain ⟨w', st', cs', js', h, inv⟩ := PM.run_never_raises arrivals _ {} [] [] (PM.fresh_inv cfg store pipes caps _ hm ho hq wf hs hp ht hF hfut)
+  exact ⟨w', st', _, h, inv.cids, inv.fins⟩
 
 end Eudoxia.C09
